@@ -163,12 +163,13 @@ def explain_bases(orig, removed, added, result, flags=('skip_bug', 'noreinsert_b
 
 # ------------------------------------------------------------- classifiers
 _EMPTY_ALTER_FUNCTION = re.compile(r'ALTER\s+FUNCTION\s+[^;{}]*\)\s*;', re.S)
+_ANNOTATION_SET_OWNED_STMT = re.compile(r'ALTER\s+ANNOTATION\s+[\w:]+\s+SET\s+OWNED\s*;', re.I)
 
 
 def parseable(script: str) -> str:
-    """the script without the body-less `ALTER FUNCTION f(...) ;` statements (a known defect of its own that would
-    make the whole script unparseable)"""
-    return _EMPTY_ALTER_FUNCTION.sub('', script or '')
+    """the script without the body-less `ALTER FUNCTION f(...) ;` and the `ALTER ANNOTATION x SET OWNED;` statements
+    (known defects of their own that would make the whole script unparseable)"""
+    return _ANNOTATION_SET_OWNED_STMT.sub('', _EMPTY_ALTER_FUNCTION.sub('', script or ''))
 
 
 class Case:
@@ -326,6 +327,10 @@ def c_abstract_base_kept(cs: Case):
         rb, bb = _names(cs.dr, key, 'bases'), _names(cs.db, key, 'bases')
         extras = [x for x in rb if x not in bb]
         if not extras:
+            continue
+        # every extra base must be an ABSTRACT pointer (no source): a concrete pointer of the former parent that
+        # stays among the bases is a different defect
+        if any(cs.or_.get(x) is None or cs.or_[x].get_source(cs.r) is not None for x in extras):
             continue
         p = cs.ob[key]
         D = p.get_source(cs.b)
@@ -765,10 +770,62 @@ def c_finalexpr(cs: Case):
     return {'constraint-finalexpr-rerendered-after-rename': out} if out else {}
 
 
+def c_alter_before_drop(cs: Case):
+    """ancestor-alter-propagates-before-drop-extending: the script SETs field f on a pointer of the former parent and
+    only AFTERWARDS drops that parent from the bases of D; the change has already been propagated to D's overload,
+    which keeps it: result value of f == the ex-parent pointer's value in the target, target value differs."""
+    out = set()
+    cs.script_alters()
+    for key, f in cs.sdiff.items():
+        if key.split(' ')[0] not in ('Property', 'Link') or not isinstance(f, set) or key not in cs.ob or key not in cs.oa:
+            continue
+        flds = f - {'inherited_fields'}
+        if not flds:
+            continue
+        p, pa = cs.ob[key], cs.oa[key]
+        now = {cs.sc._objname(cs.b, z) for z in p.get_ancestors(cs.b).objects(cs.b)}
+        gone = [q for q in pa.get_ancestors(cs.a).objects(cs.a)
+                if q.get_source(cs.a) is not None and cs.sc._objname(cs.a, q) not in now]
+        ok = bool(gone)
+        for fld in flds:
+            hit = False
+            for q in gone:
+                qk = cs.sc._objname(cs.a, q)
+                src = q.get_source(cs.a)
+                ops = cs._resets.get((str(src.get_name(cs.a)), str(q.get_shortname(cs.a).name)), set())
+                if (fld, False) in ops and qk in cs.db and _val(cs.db[qk].get(fld)) == _val(cs.dr[key].get(fld)):
+                    hit = True
+            ok = ok and hit
+        if ok:
+            out.add(key)
+            out |= _ptr_desc_keys(cs, p, set(flds) | {'inherited_fields'})
+    return {'ancestor-alter-propagates-before-drop-extending': out} if out else {}
+
+
+def c_orphan_collection(cs: Case):
+    """orphan-collection-type-left-behind: the result contains a tuple / array type that the target does not contain,
+    it already existed in the old schema (it was the type of a pointer / parameter that the step changed or dropped)
+    and NOTHING in the result refers to it any more: the implicitly created collection type is not cleaned up."""
+    out = set()
+    for key, f in cs.sdiff.items():
+        if f != '-' or key.split(' ')[0] not in ('Tuple', 'Array', 'TupleExprAlias', 'ArrayExprAlias'):
+            continue
+        if key not in cs.da or key not in cs.or_:
+            continue
+        o = cs.or_[key]
+        try:
+            refs = [x for x in cs.r.get_referrers(o) if x != o]
+        except Exception:
+            refs = [None]
+        if not refs:
+            out.add(key)
+    return {'orphan-collection-type-left-behind': out} if out else {}
+
+
 #: most specific first: a differing object is attributed to the FIRST predicate that explains it
-CLASSIFIERS = (c_bases, c_drop_before_rename, c_annotation_add_base, c_finalexpr, c_errmessage, c_alias_scalar,
+CLASSIFIERS = (c_bases, c_orphan_collection, c_drop_before_rename, c_annotation_add_base, c_finalexpr, c_errmessage, c_alias_scalar,
                c_constraint_base, c_computed_cardinality, c_link_alias_stale, c_owned, c_abstract_base_kept,
-               c_abstract_base_lost, c_reset_reinherits,
+               c_abstract_base_lost, c_reset_reinherits, c_alter_before_drop,
                c_default_removal, c_computed_status, c_alias_over_alias, c_alias_view_stale, c_inherited_fields)
 
 
@@ -798,11 +855,18 @@ def classify(sc, a, b, r, script, da, db, dr):
     return None
 
 
+ANNOTATION_SET_OWNED = re.compile(r'ALTER\s+ANNOTATION\s+[\w:]+\s+SET\s+OWNED', re.I)
 EMPTY_ALTER_FUNCTION = re.compile(r'ALTER\s+FUNCTION\s+[^;{}]*\)\s*;', re.S)
 
 
 def classify_text_error(script: str, err: BaseException):
     """empty-alter-function: the script contains `ALTER FUNCTION f(...) ;` with no body and the parser rejects it"""
-    if type(err).__name__ == 'EdgeQLSyntaxError' and EMPTY_ALTER_FUNCTION.search(script or ''):
-        return ['empty-alter-function']
-    return None
+    if type(err).__name__ != 'EdgeQLSyntaxError':
+        return None
+    causes = []
+    if EMPTY_ALTER_FUNCTION.search(script or ''):
+        causes.append('empty-alter-function')
+    # `ALTER ANNOTATION x SET OWNED` is emitted by the DDL generator but is not in the grammar
+    if ANNOTATION_SET_OWNED.search(script or '') and "keyword 'SET'" in str(err):
+        causes.append('alter-annotation-set-owned-unparseable')
+    return causes or None
